@@ -237,6 +237,7 @@ def main():
                    [x for s in (bdoc or {}).get('scenarios', {}).values() for x in s.get('samples', [])[:1]],
         'exhaustive': False,
         'trusted_base_guards_run': guards,
+        'assume_scan': _assume_scan(my_units),
         'solver_retries': sum((res[u.name].get('obligations', {}).get(ob, {}).get('retries', 0) or 0) for u in my_units for ob in res[u.name].get('obligations', {})),
     }
     if not cov['samples']: cov['samples'] = ['(no sample)']
@@ -250,6 +251,19 @@ def main():
     print(f'{prop} [{tier}] obligations {n_ok}/{n_ob} discharged, {len(undecided)} undecided, bounded findings {len(findings)} ({len(findings) - len(unknown_findings)} known), '
           f'violations {violations}, {ev["wall_s"]}s')
     return 1 if violations else 0
+
+
+def _assume_scan(units):
+    """mechanical scan (guidance: list every assumption): occurrences of `.assume(` in the sidecar modules of the units of this property"""
+    out = {}
+    mods = {'contracts/' + m + '.py' for m in ('sched_theory', 'graph_theory')}
+    for u in units:
+        mod = getattr(u.build, '__module__', None)
+        if mod: mods.add(mod.replace('.', '/') + '.py')
+    for m in sorted(mods):
+        p = os.path.join(ROOT, m)
+        if os.path.exists(p): out[m] = open(p).read().count('.assume(')
+    return out
 
 
 def _by_kind(obligations):
